@@ -160,7 +160,7 @@ PROPS['C14'] = {
     'functions': ['tree.pathLengths',
                   ('(*tree.Tree).ToDistanceMatrix', {'match': [r'^callsite', r'^post', r'^inv', r'^bounds', r'^nil', r'^pre\.tree\.pathLengths\.0']}),
                   '(*tree.Tree).cutEdgesMaxLengthRecur', '(*tree.TipBag).AddTip',
-                  ('(*tree.Tree).CutEdgesMaxLength', {'match': [r'^callsite']}), ('tree.AvgDistanceMatrix', {'match': [r'^callsite', r'^step']}), ('(*tree.Tree).ToDistanceMatrix$1', {'match': [r'^post']})],
+                  ('(*tree.Tree).CutEdgesMaxLength', {'match': [r'^callsite', r'^step']}), ('tree.AvgDistanceMatrix', {'match': [r'^callsite', r'^step']}), ('(*tree.Tree).ToDistanceMatrix$1', {'match': [r'^post']})],
     'trusted_base': TB_COMMON,
     'assumptions': A_COMMON,
     'not_decided': ['sum over the path / symmetry / zero diagonal as whole-tree facts (A-GRAPH)', 'AvgDistanceMatrix: per-entry accumulation and final division are proved; that tips2 of the last tree has the length of tips (loop bounds) is not', 'sorted order of rows (sort.Slice less function)', 'floating-point summation order (A-FP)'],
